@@ -2,6 +2,7 @@ package props
 
 import (
 	"fmt"
+	"github.com/go-kid/ioc/container/processors"
 	"reflect"
 
 	"github.com/go-kid/ioc/container/support"
@@ -105,6 +106,12 @@ func (p c07) Run(c *core.Ctx) {
 		}
 		holders = append(holders, world.NewHolder(world.BuildStruct(fields)))
 		c.Count("cases_with_generic_providers", 1)
+	}
+	if c.Rng.Intn(5) == 0 {
+		// the library's exported by-type resolver registered next to the default one: a point that names its
+		// component is still resolved by that name alone
+		providers = append(providers, processors.NewDependencyTypeAwarePostProcessors())
+		c.Count("cases_with_the_exported_by_type_resolver_registered_too", 1)
 	}
 	repairUnsatisfiable(c, g, holders, 0.85, providers...)
 	runModelCase(c, g, holders, 3, true, classifyC07, providers)
